@@ -43,6 +43,8 @@ class Contract:
         self.locals = kw.pop("locals", {})  # declared sorts of locals that need help
         self.entry_assume = kw.pop("entry_assume", None)  # extra assumptions about ghost state at entry (listed as assumptions)
         self.allow_exc = kw.pop("allow_exc", None)
+        self.pure = kw.pop("pure", False)  # no heap/ghost effects: generic native replay applies
+        self.replay = kw.pop("replay", None)  # custom native replay driver
         if kw:
             raise TypeError(f"unknown contract fields {list(kw)}")
 
